@@ -303,3 +303,78 @@ func ruleLastIterationWins(keep func(string) bool, floor int) ruleFunc {
 		}
 	}
 }
+
+// rulePluralDelegates (D4b): a method M on a slice type whose element type has a
+// method of the same name applies M to every element: the loop over the
+// receiver calls element.M(...).  A plural method that re-implements the work
+// with shared state (one projection for all layers) drifts from the per-element
+// method.
+func rulePluralDelegates(keep func(string) bool, floor int) ruleFunc {
+	return func(c *Ctx) {
+		p := c.P
+		c.R.Rule("D4b: a method M on a slice type whose element type also has a method M calls element.M for every element of the receiver")
+		n := 0
+		p.eachFuncDecl(func(pkg *packages.Package, fd *ast.FuncDecl) {
+			key := ShortKey(funcDeclKey(pkg, fd))
+			if keep != nil && !keep(key) || fd.Recv == nil || len(fd.Recv.List) != 1 || len(fd.Recv.List[0].Names) != 1 {
+				return
+			}
+			rt := pkg.TypesInfo.TypeOf(fd.Recv.List[0].Type)
+			sl, ok := rt.Underlying().(*types.Slice)
+			if !ok {
+				return
+			}
+			ms := types.NewMethodSet(sl.Elem())
+			if ms.Lookup(pkg.Types, fd.Name.Name) == nil {
+				if _, isPtr := sl.Elem().(*types.Pointer); isPtr || types.NewMethodSet(types.NewPointer(sl.Elem())).Lookup(pkg.Types, fd.Name.Name) == nil {
+					return
+				}
+			}
+			n++
+			recvObj := pkg.TypesInfo.Defs[fd.Recv.List[0].Names[0]]
+			delegated := false
+			ast.Inspect(fd.Body, func(nd ast.Node) bool {
+				rs, ok := nd.(*ast.RangeStmt)
+				if !ok {
+					return true
+				}
+				id, ok := ast.Unparen(rs.X).(*ast.Ident)
+				if !ok || pkg.TypesInfo.Uses[id] != recvObj {
+					return true
+				}
+				var elemObj types.Object
+				if vid, ok := rs.Value.(*ast.Ident); ok {
+					elemObj = pkg.TypesInfo.Defs[vid]
+				}
+				ast.Inspect(rs.Body, func(m ast.Node) bool {
+					call, ok := m.(*ast.CallExpr)
+					if !ok {
+						return true
+					}
+					se, ok := call.Fun.(*ast.SelectorExpr)
+					if !ok || se.Sel.Name != fd.Name.Name {
+						return true
+					}
+					switch x := ast.Unparen(se.X).(type) {
+					case *ast.Ident:
+						if elemObj != nil && pkg.TypesInfo.Uses[x] == elemObj {
+							delegated = true
+						}
+					case *ast.IndexExpr:
+						if bid, ok := ast.Unparen(x.X).(*ast.Ident); ok && pkg.TypesInfo.Uses[bid] == recvObj {
+							delegated = true
+						}
+					}
+					return true
+				})
+				return true
+			})
+			if delegated {
+				c.R.OK("D4b-plural-delegates", key, p.Pos(fd.Pos()), "calls the element's "+fd.Name.Name+" for every element")
+			} else {
+				c.R.Bad("D4b-plural-delegates", key, p.Pos(fd.Pos()), "the plural "+fd.Name.Name+" does not call "+fd.Name.Name+" on each element of its receiver: per-element settings (each layer's own extent/version) are not honoured")
+			}
+		})
+		c.R.Floor("D4b-plural-delegates", n, floor)
+	}
+}
